@@ -138,6 +138,16 @@ def run(st, tier, seed):
                 check_doc(res, d, exe, stmts, text, str(i % batch), reqs, expect, jobs)
             run_binaries(res, exe, jobs)
             done += batch
+        # directed: a layout with more than 9999 positions whose last strands are their own representatives, so that five-digit
+        # indices occur in the eq / wc files (250 one-strand complexes over one 40-nt sequence, then a duplex of fresh sequences);
+        # judged by the contract oracle and by the binary only (the model is not asked for a document of this size)
+        big = ("sequence r = %s : 40\n" % ("N" * 40) + "".join("strand s%d = r : 40\n" % i for i in range(250)) +
+               "".join("structure c%d = s%d : %s\n" % (i, i, "." * 40) for i in range(250)) +
+               "sequence a = %s : 40\nstrand A = a : 40\nstrand B = a* : 40\nstructure D = A + B : %s+%s\n" % ("N" * 39 + "S", "(" * 40, ")" * 40))
+        jobs, r_big, e_big = [], [], []
+        check_doc(res, d, exe, pilgen.read_pil(big), big, "big", r_big, e_big, jobs)
+        run_binaries(res, exe, jobs)
+        res.count("directed:more-than-9999-positions")
         # directed: a triple the binary must reject, to show that its acceptance test is exercised (not a property case)
         bad = os.path.join(d, "bad")
         for ext, txt in ((".st", "NN"), (".eq", "1 1 "), (".wc", "2 -1 ")):
